@@ -24,7 +24,7 @@ def run(ctx):
         else:
             replay_and_validate(ctx, [rp["behaviour"]], "replay")
         return
-    # exhaustive: 2 allocators x 8 actions and 3 allocators x 5 actions (quick); 3 x 7 and 2 x 9, counter <= 14 (thorough)
+    # exhaustive: 2 allocators x 7 actions and 3 allocators x 5 actions (quick); 3 x 7 and 2 x 9, counter <= 14 (thorough)
     for cfg in (("MC_SeqAlloc.cfg", "MC_SeqAlloc_3.cfg") if ctx.quick() else ("MC_SeqAlloc_thorough.cfg", "MC_SeqAlloc_thorough2.cfg")):
         model_check(ctx, SPEC, "MC_SeqAlloc", cfg, timeout=3000)
     ctx.cov["exhaustive"] = True
@@ -32,8 +32,8 @@ def run(ctx):
     # every behaviour of a small instance (2 allocators, every action-level interleaving, growth on and off)
     allb = behaviours(ctx, SPEC, "MC_SeqAlloc", "Beh_SeqAlloc.cfg", timeout=900)
     ctx.cov["beh_small_instance_total"] = len(allb)
-    if ctx.quick() and len(allb) > 2000:
-        allb = rnd.sample(allb, 2000)
+    if ctx.quick() and len(allb) > 1500:
+        allb = rnd.sample(allb, 1500)
     elif not ctx.quick():
         deeper = behaviours(ctx, SPEC, "MC_SeqAlloc", "Beh_SeqAlloc_thorough.cfg", timeout=1800)    # every action sequence of length 5 ...
         ctx.cov["beh_small_instance_len5_total"] = len(deeper)
@@ -47,11 +47,16 @@ def run(ctx):
     batch = behaviours(ctx, SPEC, "MC_SeqAlloc", "Beh_SeqAlloc_batch.cfg", timeout=900)
     ctx.cov["beh_in_batch_family"] = len(batch)
     behs = allb + batch + fine + coarse
+    # document level: every scenario with <= 2 (quick) / 3 (thorough) lost CAS races; the exhaustive run checks
+    # Monotone/DocAccounted on the model too.  The scenarios ride along with the first go test invocation.
+    scns = behaviours(ctx, SPEC, "MC_SeqDoc", "MC_SeqDoc.cfg" if ctx.quick() else "MC_SeqDoc_thorough.cfg", timeout=600)
+    ctx.cov["states"] += ctx.cov["tlc_runs"][-1]["distinct"]
+    ctx.cov["transitions"] += ctx.cov["tlc_runs"][-1]["generated"]
     chunk = 3000 if ctx.quick() else 8000
     for i in range(0, len(behs), chunk):
-        replay_and_validate(ctx, behs[i:i + chunk], "part%d" % (i // chunk))
-    doc_level(ctx)
-    ctx.cov["rule"] = ("behaviours = every action sequence of length 4 of the 2-allocator instance (quick: a seeded sample of 2000 of them) "
+        replay_and_validate(ctx, behs[i:i + chunk], "part%d" % (i // chunk), also_doc=scns if i == 0 else None)
+    doc_level(ctx, scns)
+    ctx.cov["rule"] = ("behaviours = every action sequence of length 4 of the 2-allocator instance (quick: a seeded sample of 1500 of them; thorough: all, plus a seeded sample of 12000 of length 5) "
                        "+ every action sequence of length 6 of the in-batch family (Next / in-batch nextSequenceGreaterThan / idle release, growth on) "
                        "+ seeded TLC simulations over 3 allocators, length <= 16 at action granularity (storage operations of "
                        "nextSequenceGreaterThan interleaved across allocators) and length <= 24 at call granularity; each is drained and "
@@ -71,12 +76,12 @@ def run(ctx):
 
 class Family:
     """one replay family: Go test, trace module, name of the line that starts a behaviour"""
-    def __init__(self, name, test, module, reset, what):
-        self.name, self.test, self.module, self.reset, self.what = name, test, module, reset, what
+    def __init__(self, name, test, module, reset, what, suffix):
+        self.name, self.test, self.module, self.reset, self.what, self.suffix = name, test, module, reset, what, suffix
 
 
-ALLOC = Family("alloc", "^TestVerif_C07_SeqAlloc$", "Trace_SeqAlloc", "Reset", "real sequenceAllocator")
-DOC = Family("doc", "^TestVerif_C07_DocLedger$", "Trace_SeqDoc", "DReset", "real document/principal write path")
+ALLOC = Family("alloc", "^TestVerif_C07_SeqAlloc$", "Trace_SeqAlloc", "Reset", "real sequenceAllocator", "")
+DOC = Family("doc", "^TestVerif_C07_DocLedger$", "Trace_SeqDoc", "DReset", "real document/principal write path", "_DOC")
 
 
 def split_behaviours(rows, fam):
@@ -93,15 +98,25 @@ def split_behaviours(rows, fam):
     return segs
 
 
-def replay(ctx, fam, behs, tag):
-    bf = os.path.join(ctx.scratch, "c07-%s-beh-%s.json" % (fam.name, tag))
-    tr = os.path.join(ctx.scratch, "c07-%s-%s.ndjson" % (fam.name, tag))
-    write_json(bf, behs)
-    rc, out = go_test(ctx, "db", fam.test, HARNESS,
-                      env={"VERIF_BEH": bf, "VERIF_TRACE_OUT": tr, "SG_TEST_LOG_LEVEL": "error"}, timeout=1500)
-    if rc != 0 or not os.path.exists(tr):
-        raise Inconclusive("C07 harness %s failed:\n%s" % (fam.test, harness_failure(out)))
-    return tr, read_ndjson(tr)
+def replay(ctx, fam, behs, tag, also_doc=None):
+    """run the behaviours of one family on the real code -> (trace path, rows).  also_doc: scenarios of the document
+    family to run in the same go test invocation (one link instead of two); their trace is left in ctx.doc_pre"""
+    env = {"SG_TEST_LOG_LEVEL": "error"}
+    fams = [(fam, behs)] + ([(DOC, also_doc)] if also_doc is not None else [])
+    paths = {}
+    for f, b in fams:
+        bf = os.path.join(ctx.scratch, "c07-%s-beh-%s.json" % (f.name, tag))
+        tr = os.path.join(ctx.scratch, "c07-%s-%s.ndjson" % (f.name, tag))
+        write_json(bf, b)
+        env["VERIF_BEH" + f.suffix], env["VERIF_TRACE_OUT" + f.suffix] = bf, tr
+        paths[f.name] = tr
+    pattern = fam.test if also_doc is None else "^TestVerif_C07_(SeqAlloc|DocLedger)$"
+    rc, out = go_test(ctx, "db", pattern, HARNESS, env=env, timeout=1500)
+    if rc != 0 or any(not os.path.exists(p) for p in paths.values()):
+        raise Inconclusive("C07 harness %s failed:\n%s" % (pattern, harness_failure(out)))
+    if also_doc is not None:
+        ctx.doc_pre = (paths["doc"], read_ndjson(paths["doc"]))
+    return paths[fam.name], read_ndjson(paths[fam.name])
 
 
 def beh_key(fam, beh):
@@ -186,9 +201,9 @@ def pass_c(ctx, fam, rows, tr, tag, n_behs, extra_bad=0):
         ctx.cov["traces_validated_against_impl"] += n_behs
 
 
-def replay_and_validate(ctx, behs, tag):
+def replay_and_validate(ctx, behs, tag, also_doc=None):
     fam = ALLOC
-    tr, rows = replay(ctx, fam, behs, tag)
+    tr, rows = replay(ctx, fam, behs, tag, also_doc=also_doc)
     segs = split_behaviours(rows, fam)
     if len(segs) != len(behs):
         raise Inconclusive("C07 harness recorded %d of %d behaviours" % (len(segs), len(behs)))
@@ -221,15 +236,10 @@ def replay_and_validate(ctx, behs, tag):
     pass_c(ctx, fam, rows2, tr2, tag, len(split_behaviours(rows2, fam)), diverged)      # conformance of the behaviours without findings
 
 
-def doc_level(ctx):
+def doc_level(ctx, scns):
     """document level: scenarios of specs/SeqAlloc/SeqDoc.tla on a real database"""
     fam = DOC
-    # exhaustive: every scenario with <= 2 (quick) / 3 (thorough) lost CAS races; checks Monotone/DocAccounted on the model too
-    scns = behaviours(ctx, SPEC, "MC_SeqDoc", "MC_SeqDoc.cfg" if ctx.quick() else "MC_SeqDoc_thorough.cfg", timeout=600)
-    run = ctx.cov["tlc_runs"][-1]
-    ctx.cov["states"] += run["distinct"]
-    ctx.cov["transitions"] += run["generated"]
-    tr, rows = replay(ctx, fam, scns, "scn")
+    tr, rows = getattr(ctx, "doc_pre", None) or replay(ctx, fam, scns, "scn")
     segs = split_behaviours(rows, fam)
     if len(segs) != len(scns):
         raise Inconclusive("C07 doc harness recorded %d of %d scenarios" % (len(segs), len(scns)))
